@@ -37,7 +37,7 @@ UNITS.append(Unit(
 UNITS.append(Unit(
     name='gv_malloc', kind='assumed', prelude=[HEAP],
     proto='void* gv_malloc(size_t size)',
-    contract='__CPROVER_requires(size >= 1 && size <= ((size_t)1 << 40))\n__CPROVER_ensures(__CPROVER_is_fresh(__CPROVER_return_value, size))\n__CPROVER_assigns()',
+    contract='__CPROVER_requires(size >= 1 && size <= ((size_t)1 << 41))\n__CPROVER_ensures(__CPROVER_is_fresh(__CPROVER_return_value, size))\n__CPROVER_assigns()',
     says='ASSUMED: malloc returns a fresh object of the requested size (out-of-memory not modelled)'))
 
 BH_LOWER = [members(['head', 'offset'], minimum=2), ren('SourceHeap::allocate', 'src_alloc', 0), ren('SourceHeap::AllocSize', 'ALLOC_SIZE', 0),
@@ -79,3 +79,279 @@ __CPROVER_assigns(self->head, self->offset, *allocated)''',
     no_flags=['--conversion-check'],
     says='may-fail bump allocation: a non-null, 8-aligned block of 1 <= allocated <= size bytes inside the current chunk, disjoint from the ghost live block',
     replay=dict(prog='bumpheap', args=['size'], cxxflags=['-DWHICH=2'], lib=True)))
+
+for u in UNITS:
+    if u.kind != 'assumed':
+        u.backend = 'smt'
+
+# ---------------------------------------------------------------------------
+# BumpWithMallocHeap (the per-iteration allocator's heap, galois/Mem.h
+# IterAllocBaseTy = BumpWithMallocHeap<FreeListHeap<SystemHeap>>)
+UNITS.append(Unit(
+    name='BWM_refill', src=MEM, within=r'class BumpWithMallocHeap\b', anchor=r'void refill\(void\* P, Block\*& h, int\* o\)',
+    proto='void BWM_refill(struct BumpHeap* self, void* P, Block** h, int* o)',
+    contract='''__CPROVER_requires(__CPROVER_is_fresh(P, sizeof(Block)) && __CPROVER_is_fresh(h, sizeof(*h)) && (o != 0 ==> __CPROVER_is_fresh(o, sizeof(*o))))
+__CPROVER_ensures(*h == (Block*)P && (*h)->next == __CPROVER_old(*h) && (o != 0 ==> *o == (int)sizeof(Block)))
+__CPROVER_assigns(*h, ((Block*)P)->next; o != 0: *o)''',
+    prelude=[HEAP], backend='smt',
+    lower=[rx(r'(?<![\w*>])h(?![\w])', '(*h)', 2, 2)],
+    says='refill(P, h, o): chunk P becomes the head of list h (old head linked behind it), the bump offset starts after the header'))
+UNITS.append(Unit(
+    name='BWM_allocate', src=MEM, within=r'class BumpWithMallocHeap\b', anchor=r'inline void\* allocate\(size_t size\)',
+    proto='void* BWM_allocate(struct BumpHeap* self, size_t size)',
+    contract='''__CPROVER_requires(BH_FRESH(self) && BH_INV(self) && GL_OK(self) && size <= ((size_t)1 << 40))
+__CPROVER_ensures(__CPROVER_return_value != 0 && OFF(__CPROVER_return_value) % 8 == 0 && OFF(__CPROVER_return_value) >= sizeof(Block) && ALIGN8(size) >= size && BH_INV(self))
+__CPROVER_ensures(sizeof(Block) + ALIGN8(size) <= ALLOC_SIZE ==> (self->head != 0 && __CPROVER_same_object(__CPROVER_return_value, self->head) && OFF(__CPROVER_return_value) + ALIGN8(size) <= ALLOC_SIZE && (size_t)self->offset == OFF(__CPROVER_return_value) + ALIGN8(size) && self->fallbackHead == __CPROVER_old(self->fallbackHead)))
+__CPROVER_ensures((sizeof(Block) + ALIGN8(size) <= ALLOC_SIZE && self->head == __CPROVER_old(self->head)) ==> OFF(__CPROVER_return_value) >= gl_off + gl_len)
+__CPROVER_ensures(sizeof(Block) + ALIGN8(size) > ALLOC_SIZE ==> (self->fallbackHead != 0 && __CPROVER_same_object(__CPROVER_return_value, self->fallbackHead) && OFF(__CPROVER_return_value) == sizeof(Block) && __CPROVER_OBJECT_SIZE(__CPROVER_return_value) == ALIGN8(size) + sizeof(Block) && self->fallbackHead->next == __CPROVER_old(self->fallbackHead) && self->head == __CPROVER_old(self->head) && self->offset == __CPROVER_old(self->offset)))
+__CPROVER_assigns(self->head, self->offset, self->fallbackHead)''',
+    prelude=[HEAP], uses=['src_alloc', 'gv_malloc'], inline=['BWM_refill'], backend='smt', reach_backend='sat', reach_timeout=300,
+    lower=[members(['head', 'offset', 'fallbackHead'], minimum=4), ren('SourceHeap::allocate', 'src_alloc'), ren('SourceHeap::AllocSize', 'ALLOC_SIZE', 3),
+           rx(r'(?<![\w])malloc\(', 'gv_malloc(', 1, 1),
+           rx(r'refill\(p, self->fallbackHead, NULL\)', 'BWM_refill(self, p, &self->fallbackHead, NULL)', 1, 1),
+           rx(r'refill\(src_alloc\(ALLOC_SIZE\), self->head, &self->offset\)', 'BWM_refill(self, src_alloc(ALLOC_SIZE), &self->head, &self->offset)', 1, 1)],
+    no_flags=['--conversion-check'],
+    says='per-iteration bump heap: small requests are bump-allocated (non-null, 8-aligned, inside the current chunk, above everything handed out before or in a fresh chunk); requests that do not fit a chunk get their own malloc block of aligned size + header, linked in the fallback list so that only clear() releases it'))
+
+# ---------------------------------------------------------------------------
+# FreeListHeap: LIFO of freed blocks.
+FL = [HEAP, '''
+typedef struct FreeNode FreeNode;
+struct FreeNode { FreeNode* next; };
+struct FreeListHeap { FreeNode* head; } flh;   /* the heap object (a global) */
+#define GV_NOP(...) ((void)0)
+''']
+FL_LOWER = [members(['head'], self='flh', arrow='.', minimum=2), ren('SourceHeap::allocate', 'src_alloc', 0), rx(r'dbg::print\(', 'GV_NOP(', 1), rx(r'\bthis\b', '&flh', 0)]
+UNITS.append(Unit(
+    name='FreeListHeap_allocate', src=MEM, within=r'class FreeListHeap\b', anchor=r'inline void\* allocate\(size_t size\)',
+    proto='void* FreeListHeap_allocate(size_t size)',
+    contract='''__CPROVER_requires(size == ALLOC_SIZE && (flh.head != 0 ==> __CPROVER_is_fresh(flh.head, ALLOC_SIZE)))
+__CPROVER_ensures(__CPROVER_old(flh.head) != 0 ==> (__CPROVER_return_value == __CPROVER_old(flh.head) && flh.head == ((FreeNode*)__CPROVER_return_value)->next))
+__CPROVER_ensures(__CPROVER_old(flh.head) == 0 ==> (__CPROVER_is_fresh(__CPROVER_return_value, ALLOC_SIZE) && flh.head == 0))
+__CPROVER_assigns(flh.head)''',
+    prelude=FL, uses=['src_alloc'], lower=FL_LOWER, backend='smt',
+    says='allocate pops the most recently freed block if there is one (it is on the list only because deallocate put it there: reuse only after free), otherwise takes a fresh chunk from the source heap'))
+UNITS.append(Unit(
+    name='FreeListHeap_deallocate', src=MEM, within=r'class FreeListHeap\b', anchor=r'inline void deallocate\(void\* ptr\)',
+    proto='void FreeListHeap_deallocate(void* ptr)',
+    contract='''__CPROVER_requires((ptr != 0 ==> __CPROVER_is_fresh(ptr, ALLOC_SIZE)))
+__CPROVER_ensures(ptr != 0 ==> (flh.head == (FreeNode*)ptr && flh.head->next == __CPROVER_old(flh.head)))
+__CPROVER_ensures(ptr == 0 ==> flh.head == __CPROVER_old(flh.head))
+__CPROVER_assigns(flh.head; ptr != 0: ((FreeNode*)ptr)->next)''',
+    prelude=FL, lower=FL_LOWER + [rx(r'assert\(\(uintptr_t\)ptr > 0x100\);', '', 1, 1)], backend='smt',
+    says='deallocate pushes the block on the free list (null is ignored); nothing else changes',
+    trusted=['FreeListHeap::deallocate: the debug assertion (uintptr_t)ptr > 0x100 is dropped (CBMC pointers are abstract)']))
+# (a lemma unit chaining deallocate/allocate through their contracts was
+# dropped: with two replaced calls that both carry is_fresh preconditions the
+# DFCC instrumentation made the end of the harness unreachable; the vacuity
+# guard caught it.  The LIFO behaviour is what the two per-function contracts
+# say: deallocate makes ptr the head, allocate returns the head.)
+
+# ---------------------------------------------------------------------------
+# BlockHeap<ElemSize, SourceHeap>: fixed-size elements carved out of chunks.
+# The element/array layout (struct TyEq, struct Block_basic, the enum that
+# computes how many elements fit, struct Block) is EXTRACTED verbatim from the
+# class, so the "how many fit" arithmetic that is verified is the code's own.
+for ES in (8, 24, 40, 1):
+    BHP = '''
+#define ElemSize %du
+typedef struct Block_basic Block_basic;
+typedef struct BHBlock BHBlock;
+typedef struct TyEq TyEq;
+size_t g_live_idx;   /* ghost: index of an arbitrary live element of the current block */
+''' % ES
+    PRE = [dict(src=MEM, anchor=r'struct TyEq \{.*?\n  \};', lower=[]),
+           dict(src=MEM, anchor=r'struct Block_basic \{.*?\n  \};', lower=[]),
+           dict(src=MEM, anchor=r'enum \{\s*BytesLeft.*?\n  \};', lower=[ren('SourceHeap::AllocSize', 'ALLOC_SIZE')]),
+           dict(src=MEM, anchor=r'struct Block \{\s*union \{\s*Block\* next;\s*double dummy;\s*\};\s*TyEq data\[TotalFit\];\s*\};',
+                lower=[rx(r'struct Block \{', 'struct BHBlock {', 1, 1), rx(r'Block\* next', 'BHBlock* next', 1, 1)])]
+    BHS = 'struct BlockHeap { BHBlock* head; int headIndex; };\n' \
+          '#define BLK_INV(h) ((h)->head == 0 || ((h)->headIndex >= 0 && (h)->headIndex <= TotalFit))\n' \
+          '#define BLK_FRESH(h) (__CPROVER_is_fresh(h, sizeof(*(h))) && ((h)->head != 0 ==> __CPROVER_is_fresh((h)->head, ALLOC_SIZE)))\n'
+
+    def mk(name, anchor, proto, contract, uses, says, extra_lower=()):
+        UNITS.append(Unit(
+            name='%s_%d' % (name, ES), src=MEM, within=r'class BlockHeap\b', anchor=anchor, proto=proto % ES, contract=contract,
+            prelude=[HEAP, BHP], pre_extract=PRE, uses=uses, backend='smt',
+            ghost_prefix='', inst='ElemSize=%d, SourceHeap::AllocSize = 2 MB' % ES, says=says,
+            lower=[members(['head', 'headIndex'], minimum=2), ren('SourceHeap::allocate', 'src_alloc', 0), ren('SourceHeap::AllocSize', 'ALLOC_SIZE', 0),
+                   rx(r'(?<![\w])Block\* BP = \(Block\*\)P;', 'BHBlock* BP = (BHBlock*)P;', 0)] + list(extra_lower)))
+    # struct BlockHeap must come after the extracted declarations: put it in ghost-free prelude via pre_extract trick
+    UNITS_BH = []
+    mk('BlockHeap_refill', r'void refill\(\)', 'void BlockHeap_refill_%d(struct BlockHeap* self)',
+       '''__CPROVER_requires(BLK_FRESH(self))
+__CPROVER_ensures(self->head != 0 && __CPROVER_is_fresh(self->head, ALLOC_SIZE) && self->head->next == __CPROVER_old(self->head) && self->headIndex == 0)
+__CPROVER_assigns(self->head, self->headIndex)''', ['src_alloc'], 'refill links a fresh chunk and restarts the element index')
+    mk('BlockHeap_allocate', r'inline void\* allocate\(size_t GALOIS_USED_ONLY_IN_DEBUG\(size\)\)', 'void* BlockHeap_allocate_%d(struct BlockHeap* self, size_t size)',
+       '''__CPROVER_requires(BLK_FRESH(self) && BLK_INV(self) && size == ElemSize && (self->head != 0 ==> g_live_idx < (size_t)self->headIndex))
+__CPROVER_ensures(sizeof(struct BHBlock) <= ALLOC_SIZE && sizeof(TyEq) >= ElemSize && sizeof(TyEq) % 8 == 0)
+__CPROVER_ensures(__CPROVER_return_value != 0 && self->head != 0 && __CPROVER_same_object(__CPROVER_return_value, self->head) && BLK_INV(self))
+__CPROVER_ensures(OFF(__CPROVER_return_value) == 8 + sizeof(TyEq) * (size_t)(self->headIndex - 1) && OFF(__CPROVER_return_value) + sizeof(TyEq) <= ALLOC_SIZE && OFF(__CPROVER_return_value) % 8 == 0)
+__CPROVER_ensures(self->head == __CPROVER_old(self->head) ==> (self->headIndex == __CPROVER_old(self->headIndex) + 1 && (size_t)(self->headIndex - 1) != g_live_idx))
+__CPROVER_ensures(self->head != __CPROVER_old(self->head) ==> (self->headIndex == 1 && self->head->next == __CPROVER_old(self->head)))
+__CPROVER_assigns(self->head, self->headIndex)''', ['BlockHeap_refill_%d' % ES],
+       'fixed-size allocation: element headIndex of the current block -- non-null, inside the 2 MB chunk (the extracted TotalFit arithmetic never lets an element stick out), 8-aligned, at least ElemSize bytes, a different element than every one handed out before from this block; a full block is replaced by a fresh one',
+       extra_lower=[rx(r'GALOIS_USED_ONLY_IN_DEBUG\(size\)', 'size', 0), rx(r'(?<![\w.>])refill\(\)', 'BlockHeap_refill_%d(self)' % ES, 1, 1)])
+    for u in UNITS[-2:]:
+        u.prelude = [HEAP, BHP]
+        u.post_pre = BHS
+
+# ---------------------------------------------------------------------------
+# Pow_2_BlockHeap: size classes.
+P2_PRE = [dict(src=MEM, anchor=r'static const bool USE_MALLOC_AS_BACKUP = true;', lower=[]),
+          dict(src=MEM, anchor=r'static const size_t LOG2_MIN_SIZE = \d+;', lower=[]),
+          dict(src=MEM, anchor=r'static const size_t LOG2_MAX_SIZE = \d+;', lower=[])]
+P2 = '''
+unsigned g_class;   /* ghost: the size class the last block was taken from / returned to */
+#define GV_NOP(...) ((void)0)
+'''
+P2_TABLE = '''
+/* ASSUMED (populateTable, by inspection): the table has LOG2_MAX_SIZE+1 fixed-size heaps, heap i serving blocks of 2^i bytes */
+static inline size_t ht_size(void) { return LOG2_MAX_SIZE + 1; }
+void* ht_allocate(unsigned i, size_t sz)
+__CPROVER_requires(i <= LOG2_MAX_SIZE && sz == ((size_t)1 << i))
+__CPROVER_ensures(__CPROVER_is_fresh(__CPROVER_return_value, sz) && g_class == i)
+__CPROVER_assigns(g_class);
+void ht_deallocate(unsigned i, void* ptr)
+__CPROVER_requires(i <= LOG2_MAX_SIZE)
+__CPROVER_ensures(g_class == i)
+__CPROVER_assigns(g_class);
+'''
+UNITS.append(Unit(name='ht_allocate', kind='assumed', proto='void* ht_allocate(unsigned i, size_t sz)', contract='', prelude=[]))
+UNITS.append(Unit(name='ht_deallocate', kind='assumed', proto='void ht_deallocate(unsigned i, void* ptr)', contract='', prelude=[]))
+for u in UNITS[-2:]:
+    u.decl = lambda: ''      # declared (with contract) in P2_TABLE, after the extracted constants
+UNITS.append(Unit(
+    name='Pow2_pow2', src=MEM, within=r'class Pow_2_BlockHeap\b', anchor=r'static inline size_t pow2\(unsigned i\)',
+    proto='size_t Pow2_pow2(unsigned i)', contract='__CPROVER_requires(i < 32)\n__CPROVER_ensures(__CPROVER_return_value == ((size_t)1 << i))\n__CPROVER_assigns()',
+    prelude=[HEAP, P2], pre_extract=P2_PRE, says='pow2(i) = 2^i for i < 32'))
+UNITS.append(Unit(
+    name='Pow2_nextLog2', src=MEM, within=r'class Pow_2_BlockHeap\b', anchor=r'static unsigned nextLog2\(const size_t allocSize\)',
+    proto='unsigned Pow2_nextLog2(size_t allocSize)',
+    contract='''__CPROVER_requires(allocSize <= ((size_t)1 << LOG2_MAX_SIZE))
+__CPROVER_ensures(LOG2_MIN_SIZE <= __CPROVER_return_value && __CPROVER_return_value <= LOG2_MAX_SIZE && ((size_t)1 << __CPROVER_return_value) >= allocSize)
+__CPROVER_ensures(__CPROVER_return_value == LOG2_MIN_SIZE || ((size_t)1 << (__CPROVER_return_value - 1)) < allocSize)
+__CPROVER_assigns()''',
+    prelude=[HEAP, P2], pre_extract=P2_PRE, uses=['Pow2_pow2'],
+    lower=[rx(r'(?<![\w])pow2\(', 'Pow2_pow2(', 1, 1)],
+    loops={1: '''
+__CPROVER_assigns(i)
+__CPROVER_loop_invariant(LOG2_MIN_SIZE <= i && i <= LOG2_MAX_SIZE && (i == LOG2_MIN_SIZE || ((size_t)1 << (i - 1)) < allocSize))
+__CPROVER_decreases(LOG2_MAX_SIZE - i)
+'''},
+    says='size class of a request: the least i >= 3 with 2^i >= allocSize, at most 16; a function of allocSize only (same class on free as on allocate)'))
+for nm, anchor, proto, post in [
+        ('Pow2_allocateBlock', r'void\* allocateBlock\(const size_t allocSize\)', 'void* Pow2_allocateBlock(size_t allocSize)',
+         '__CPROVER_ensures(__CPROVER_return_value != 0 && __CPROVER_OBJECT_SIZE(__CPROVER_return_value) >= allocSize && OFF(__CPROVER_return_value) == 0)\n__CPROVER_ensures(allocSize <= ((size_t)1 << LOG2_MAX_SIZE) ==> (g_class >= LOG2_MIN_SIZE && ((size_t)1 << g_class) >= allocSize && (g_class == LOG2_MIN_SIZE || ((size_t)1 << (g_class - 1)) < allocSize)))'),
+        ('Pow2_deallocateBlock', r'void deallocateBlock\(void\* ptr, const size_t allocSize\)', 'void Pow2_deallocateBlock(void* ptr, size_t allocSize)',
+         '__CPROVER_ensures(allocSize <= ((size_t)1 << LOG2_MAX_SIZE) ==> (g_class >= LOG2_MIN_SIZE && ((size_t)1 << g_class) >= allocSize && (g_class == LOG2_MIN_SIZE || ((size_t)1 << (g_class - 1)) < allocSize)))')]:
+    UNITS.append(Unit(
+        name=nm, src=MEM, within=r'class Pow_2_BlockHeap\b', anchor=anchor, proto=proto,
+        contract='__CPROVER_requires(allocSize >= 1 && allocSize <= ((size_t)1 << 40)' + (' && __CPROVER_is_fresh(ptr, allocSize)' if 'dealloc' in nm else '') + ')\n' + post + '\n__CPROVER_assigns(g_class' + ('; __CPROVER_object_whole(ptr)' if 'dealloc' in nm else '') + ')' + ('\n__CPROVER_frees(ptr)' if 'dealloc' in nm else ''),
+        prelude=[HEAP, P2], pre_extract=P2_PRE, post_pre=P2_TABLE, uses=['Pow2_nextLog2', 'Pow2_pow2', 'gv_malloc', 'ht_allocate', 'ht_deallocate'],
+        lower=[rx(r'(?<![\w])pow2\(', 'Pow2_pow2(', 1), rx(r'(?<![\w])nextLog2\(', 'Pow2_nextLog2(', 1, 1),
+               rx(r'(?<![\w])malloc\(', 'gv_malloc(', 0), rx(r'fprintf\(stderr,', 'GV_NOP(', 1), rx(r'throw std::bad_alloc\(\);', '', 1),
+               rx(r'heapTable\.size\(\)', 'ht_size()', 1, 1), rx(r'heapTable\[i\]\.allocate\(', 'ht_allocate(i, ', 0), rx(r'heapTable\[i\]\.deallocate\(', 'ht_deallocate(i, ', 0)],
+        backend='smt',
+        says='%s: requests above 64 KB go to malloc/free; every other request is served by the heap of its size class (class i with 2^i >= allocSize, the least such i >= 3), the same class on free as on allocate; the block is at least allocSize bytes; the code\'s table-index assertion holds' % nm,
+        trusted=['heap table stub (ht_size/ht_allocate/ht_deallocate): LOG2_MAX_SIZE+1 heaps, heap i serves 2^i-byte blocks (populateTable, by inspection)']))
+
+# ---------------------------------------------------------------------------
+# PerBackend (PerThreadStorage.cpp): offsets inside the per-thread page.
+# nextLoc is shared: thread-modular with the rely
+#   "nextLoc stays a multiple of the cache line and stays above the ghost
+#    live block"  (other threads only fetch_add cache-line multiples, and lower
+#    nextLoc only when they free the top block, above which nothing is live).
+# The free lists (vector<vector<unsigned>>, under freeOffsetsLock) are a stub
+# whose push REQUIRES and whose back ENSURES the list invariant: an entry of
+# class i is a cache-line multiple, fits the page, and is disjoint from the
+# ghost live block.
+PB_PRE = [dict(src=PTS, anchor=r'constexpr unsigned MAX_SIZE = \d+;', lower=[rx('constexpr', 'static const', 1, 1)]),
+          dict(src=PTS, anchor=r'constexpr unsigned MIN_SIZE = \d+;', lower=[rx('constexpr', 'static const', 1, 1)])]
+PB = '''
+#define ptAllocSize ((unsigned)(2u * 1024 * 1024))   /* galois::substrate::allocSize() */
+unsigned pl_off, pl_len;     /* ghost: an arbitrary live block [pl_off, pl_off+pl_len) of the page */
+/* nextLoc <= 2^30: a thread adds to nextLoc only after seeing nextLoc + size <= page size, so nextLoc never exceeds
+   (threads + 1) * 2 MB -- below 2^30 for up to 511 threads; beyond that the unsigned sums in allocOffset could wrap */
+#define GV_RELY_EXPR(o, n) ((n) % 128 == 0 && (n) >= (uint64_t)pl_off + pl_len && (n) <= ((uint64_t)1 << 30))
+#include "gv_atomic.h"
+struct PerBackend { gv_atomic nextLoc; bool invalid; } pb;
+#define DISJ(o, sz) ((uint64_t)(o) + (sz) <= pl_off || (uint64_t)pl_off + pl_len <= (o))
+#define FO_ENTRY_OK(i, o) ((o) % 128 == 0 && (uint64_t)(o) + ((uint64_t)1 << (i)) <= ptAllocSize && DISJ(o, (uint64_t)1 << (i)))
+static inline void gv_abort(void) { __CPROVER_assert(0, "abort() reached"); __CPROVER_assume(0); }
+static inline void gv_die(void) { __CPROVER_assume(0); }   /* GALOIS_DIE: out of memory / use after delete -- terminates the program */
+bool g_lock_held;   /* freeOffsetsLock (std::lock_guard) */
+bool nondet_bool(void); unsigned nondet_unsigned(void);
+bool g_fo_nonempty_at; unsigned g_fo_probe;   /* ghost: emptiness answers must be consistent for the class that is popped */
+'''
+PB_FO = '''
+/* emptiness of list i: arbitrary but consistent within the call (the lists only change under the lock this call holds) */
+bool __CPROVER_uninterpreted_fo_empty(unsigned i);
+static inline bool fo_empty(unsigned i)
+{ __CPROVER_assert(g_lock_held && i < MAX_SIZE, "free lists are read under the lock, class in range"); return __CPROVER_uninterpreted_fo_empty(i); }
+static inline unsigned fo_back(unsigned i)
+{ __CPROVER_assert(g_lock_held && i < MAX_SIZE && !__CPROVER_uninterpreted_fo_empty(i), "back() on a non-empty list, under the lock");
+  unsigned o = nondet_unsigned(); __CPROVER_assume(FO_ENTRY_OK(i, o)); return o; }
+static inline void fo_pop_back(unsigned i) { __CPROVER_assert(g_lock_held && i < MAX_SIZE, "pop under the lock"); }
+static inline void fo_push_back(unsigned i, unsigned o)
+{ __CPROVER_assert(g_lock_held && i < MAX_SIZE, "push under the lock, class in range");
+  __CPROVER_assert(FO_ENTRY_OK(i, o), "pushed entry keeps the free-list invariant: cache-line multiple, inside the page, disjoint from every live block"); }
+'''
+UNITS.append(Unit(
+    name='PerBackend_nextLog2', src=PTS, anchor=r'unsigned galois::substrate::PerBackend::nextLog2\(unsigned size\)',
+    proto='unsigned PerBackend_nextLog2(unsigned size)',
+    contract='''__CPROVER_requires(size <= (1u << (MAX_SIZE - 1)))
+__CPROVER_ensures(MIN_SIZE <= __CPROVER_return_value && __CPROVER_return_value < MAX_SIZE && (1u << __CPROVER_return_value) >= size)
+__CPROVER_ensures(__CPROVER_return_value == MIN_SIZE || (1u << (__CPROVER_return_value - 1)) < size)
+__CPROVER_assigns()''',
+    prelude=[PB], pre_extract=PB_PRE, lower=[rx(r'(?<![\w])abort\(\)', 'gv_abort()', 1, 1)],
+    loops={1: '''
+__CPROVER_assigns(i)
+__CPROVER_loop_invariant(MIN_SIZE <= i && i < MAX_SIZE && (i == MIN_SIZE || (1u << (i - 1)) < size))
+__CPROVER_decreases(MAX_SIZE - i)
+'''},
+    says='per-thread storage size class: the least i >= 7 (one cache line) with 2^i >= size; abort() unreachable for sizes up to 2^29'))
+UNITS.append(Unit(
+    name='PerBackend_allocOffset', src=PTS, anchor=r'unsigned galois::substrate::PerBackend::allocOffset\(const unsigned sz\)',
+    proto='unsigned PerBackend_allocOffset(unsigned sz)',
+    contract='''__CPROVER_requires(sz >= 1 && sz <= ptAllocSize && pl_len >= 1 && (uint64_t)pl_off + pl_len <= ptAllocSize && pb.nextLoc.v % 128 == 0 && pb.nextLoc.v >= (uint64_t)pl_off + pl_len && pb.nextLoc.v <= ((uint64_t)1 << 30) && !g_lock_held && !g_fo_nonempty_at && !pb.invalid)
+__CPROVER_ensures(__CPROVER_return_value % 128 == 0)
+__CPROVER_ensures((uint64_t)__CPROVER_return_value + sz <= ptAllocSize)
+__CPROVER_ensures(DISJ(__CPROVER_return_value, sz))
+__CPROVER_assigns(pb.nextLoc.v, g_lin_count, g_lin_old, g_lin_new, g_last_read, g_last_load_order, g_lock_held, g_fo_nonempty_at, g_fo_probe)''',
+    prelude=[PB], pre_extract=PB_PRE, post_pre=PB_FO, uses=['PerBackend_nextLog2'],
+    lower=[ren('std::memory_order_relaxed', 'memory_order_relaxed'),
+           rx(r'(?<![\w])nextLog2\(', 'PerBackend_nextLog2(', 1, 1),
+           rx(r'nextLoc\.load\(', '(unsigned)gv_load(&pb.nextLoc, ', 1, 1),
+           rx(r'nextLoc\.fetch_add\(size\)', '(unsigned)gv_fetch_add(&pb.nextLoc, size, memory_order_seq_cst)', 1, 1),
+           rx(r'(?<![\w.])invalid(?![\w])', 'pb.invalid', 1, 1),
+           rx(r'GALOIS_DIE\([^;]*\);', 'gv_die();', 2, 2),
+           rx(r'std::lock_guard<Lock> llock\(freeOffsetsLock\);', 'g_lock_held = 1;', 1, 1),
+           rx(r'freeOffsets\[(\w+)\]\.empty\(\)', r'fo_empty(\1)', 3), rx(r'freeOffsets\[(\w+)\]\.back\(\)', r'fo_back(\1)', 2, 2),
+           rx(r'freeOffsets\[(\w+)\]\.pop_back\(\)', r'fo_pop_back(\1)', 2, 2), rx(r'freeOffsets\[(\w+)\]\.push_back\(', r'fo_push_back(\1, ', 1, 1)],
+    loops={1: '''
+__CPROVER_assigns(index)
+__CPROVER_loop_invariant(ll <= index && index <= MAX_SIZE && g_lock_held && ll >= MIN_SIZE && ll < MAX_SIZE && size == (1u << ll))
+__CPROVER_decreases(MAX_SIZE - index)
+''', 2: '''
+__CPROVER_assigns(i, start)
+__CPROVER_loop_invariant(g_lock_held && MIN_SIZE <= ll && ll < index && index < MAX_SIZE && size == (1u << ll) && ll <= i + 1 && i < index &&
+  end == offset + (1u << index) && FO_ENTRY_OK(index, offset) && start <= end && (uint64_t)end - start == ((uint64_t)1 << (i + 1)) - size && start % 128 == 0 && start >= offset + size)
+__CPROVER_decreases(i + 1)
+'''},
+    no_flags=['--conversion-check'], backend='smt',
+    says='per-thread storage offsets: the returned offset is a cache-line multiple, the block fits the page and is disjoint from every live block (ghost), on the bump path (under interference on nextLoc), when recycled from a free list, and when split off a bigger free block -- the "change" pieces pushed back tile the remainder exactly (each push keeps the free-list invariant)',
+    trusted=['free-list stub fo_* (vector<vector<unsigned>> under freeOffsetsLock): entries satisfy the invariant FO_ENTRY_OK; std::lock_guard = lock held to the end of the function',
+             'rely on nextLoc: cache-line multiple, above every live block (argued in the unit comment)']))
+
+EXPLANATION = ('BumpHeap (refill, allocate, may-fail allocate), BumpWithMallocHeap (the per-iteration heap), BlockHeap<1|8|24|40> (with the layout '
+               'arithmetic extracted from the class), FreeListHeap, Pow_2_BlockHeap size classes and PerBackend offsets are extracted from /repo, lowered to C '
+               'and proved against contracts: returned block non-null, inside its chunk/page, aligned (relative to the chunk), at least the requested size, '
+               'disjoint from an arbitrary ghost live block (hence from every live block); reuse only through the free list.')
+NOT_DECIDED = ('concurrent alloc/free on shared heaps beyond PerBackend::nextLoc; LargeArray/NumaMem (mmap + libnuma), PageAlloc.cpp, the page pool; '
+               'absolute alignment of chunks (OS/page pool); clear() list walks; SizedHeapFactory map; deallocOffset; that the executor resets the per-iteration heap only at commit/abort.')
+ASSUMPTIONS = ['source heap / malloc return fresh objects of the requested size (assumed contracts src_alloc, gv_malloc); out-of-memory not modelled',
+               'alignment is relative to the chunk start (chunks are 2 MB pages or malloc blocks)',
+               'PerBackend: rely on nextLoc (cache-line multiple, above live blocks, <= 2^30 i.e. at most 511 threads); free-list stub with the stated entry invariant; lock_guard holds the lock to the end of the function',
+               'Pow_2_BlockHeap heap table: 17 heaps, heap i serves 2^i bytes (populateTable, by inspection)',
+               'GALOIS_DIE / abort terminate the program']
